@@ -473,7 +473,7 @@ variable codes: 1 c_var 2 cxx_var 3 shadow_var 4 CXX_this 5 C_this 6 cxx_noncons
 def opStrFromC := 1       -- `{c_const}std::string {A}({B});`            args [A, B]
 def opStrEmpty := 2       -- `{c_const}std::string {A};`                  args [A]
 def opStrcpy := 3         -- `strcpy({A}, {B}{cxx_member}c_str());`       args [A, B]
-def opCapsuleAddr := 4    -- `{c_const}{cxx_type} * {A} = cast {B}{c_member}addr` args [A, B]
+def opCapsuleAddr := 4    -- `[{c_const}]{cxx_type} * {A} = cast<[{c_const}]{cxx_type} *>{B}{c_member}addr` args [A, B, constDecl, constCast]
 def opSetAddr := 5        -- `{A}->addr = {B};`                          args [A, B]
 def opSetIdtor := 6       -- `{A}->idtor = {B};`                         args [A, B]
 def opReturn := 7         -- `return {A};`                               args [A]
@@ -489,7 +489,8 @@ def opArgExpr := 15       -- argument expression `{P}{A}`: args [prefix (0,1 &,2
 def decodePre (isIndirect : Bool) : Nat × List Nat → Rhs
   | (1, [2, 1]) => .strFromC
   | (2, [2]) => .strEmpty
-  | (4, [2, 1]) => .capsuleAddr isIndirect      -- `{c_member}` is `->` for an indirect argument
+  | (4, [2, 1, 1, 1]) => .capsuleAddr isIndirect -- `{c_member}` is `->` for an indirect argument; the declared
+                                                  -- pointer and the cast both carry `{c_const}` (flags 1 1)
   | (13, [2, 9, 1]) => .structCast (!isIndirect) -- `{c_addr}` is `&` for a by-value argument
   | (code, _) => .other code
 
